@@ -219,7 +219,7 @@ def _run(ch, ctx, fault=None):
         fault = {"kind": "mp.rlock", "k": 1, "when": "before", "exc": "OSError"}
         k.fault = fault
         ctx.log("fault", fault)
-    elif fault is None and budget[0] and ch.bool("start_failure", 0.15):
+    elif fault is None and budget[0] and ch.bool("start_failure", 0.3):
         # ... or the start itself fails after the lock hand-over (fork: EAGAIN; spawn: an
         # unpicklable argument): the caller survives, other starts and children go on
         fault = {"kind": "proc.start", "k": ch.int("failing_start", 1, 2), "when": "before",
